@@ -26,6 +26,7 @@ type StructType struct {
 	// nil if this is not an instantiated generic
 	genericType      *GenericStructType
 	instantiatedWith []Type // the GenericTypes of the parent that this struct was instantiated with
+	instantiating    bool   // true while the fields of this instantiation are still being instantiated
 }
 
 func (*StructType) ddpType() {}
